@@ -87,10 +87,18 @@ pub fn check_c16(job: &JobSpec, r: &JobResult, src: &mut SrcLines) -> Option<Vio
             let key = panic_key(src, file, *line, msg);
             Some(Violation { class: "PANIC".into(), key, detail: format!("panicked at {}:{}: {}", file, line, msg) })
         }
-        Outcome::Hang { site } => Some(Violation {
-            class: "HANG".into(),
-            key: format!("HANG|{}", site),
-            detail: format!("step budget exhausted after {} ticks, last site {}", r.ticks, site),
+        Outcome::Hang { site, memory } => Some(if *memory {
+            Violation {
+                class: "HANG".into(),
+                key: format!("MEMGROW|{}", site),
+                detail: format!("live heap of the job grew beyond its cap (64 MiB + 4 KiB per input byte) after {} ticks, last site {}", r.ticks, site),
+            }
+        } else {
+            Violation {
+                class: "HANG".into(),
+                key: format!("HANG|{}", site),
+                detail: format!("step budget exhausted after {} ticks, last site {}", r.ticks, site),
+            }
         }),
         Outcome::Err { variant, text, filename, line } => match *variant {
             "Syntax" | "Compiler" => {
